@@ -41,14 +41,14 @@ Definition enc_result (r : result float) : list Z :=
 
 (* a chain of programs sharing the PUT/GET store (RATES or CALCULATE_VALUES program, then the
    USER_PUNCH reader): each is run with the store left by the previous one *)
-Fixpoint run_chain (tbl : kwtable) (fuel : nat) (saved : list (list Z * float)) (progs : list (bool * list string))
+Fixpoint run_chain (tbl : kwtable) (fuel : nat) (saved : list (list Z * float)) (host : list (string * float)) (progs : list (bool * list string))
   : list (list Z) :=
   match progs with
   | [] => []
   | (hp, p) :: r =>
-      let res := run_program float float_ops tbl hp fuel saved p in
+      let res := run_program float float_ops tbl hp fuel saved host p in
       enc_result res :: match res with
-                        | RDone _ _ saved' => run_chain tbl fuel saved' r
+                        | RDone _ _ saved' => run_chain tbl fuel saved' host r
                         | _ => []
                         end
   end.
